@@ -122,6 +122,8 @@ type val struct {
 	large bool
 	// std: a google.golang.org/protobuf message handed to the deprecated gogo marshaler (gogoschema.go)
 	std bool
+	// gogoOnly: a message type that implements gogo's proto.Message only, no ProtoReflect (gogoonly.go)
+	gogoOnly bool
 }
 
 func jsonVal[T any](v *T, strs ...string) val {
@@ -387,7 +389,7 @@ func gogoVal(m gogoproto.Message, strs ...string) val {
 }
 
 func genGogoVal(r *vlib.Rand) val {
-	k := r.Intn(12)
+	k := r.Intn(14)
 	v := genGogoValK(r, k)
 	if v.again == nil { // (the std-family values bring their own)
 		v.again = func(r *vlib.Rand) val { return genGogoValK(r, k) }
@@ -429,6 +431,9 @@ func genGogoValK(r *vlib.Rand, k int) val {
 		}
 		var strs []string
 		return gogoVal(gogoTree(genTree(r, 2, &strs)), strs...)
+	case 12, 13:
+		// message types only gogo can handle (no ProtoReflect): what the deprecated marshaler is kept for
+		return genGogoOnly(r, r.Intn(nGogoOnlyKinds))
 	default:
 		// the deprecated marshaler documents itself as compatible with google.golang.org/protobuf messages
 		// (fallback to ProtoMarshaler): values of the std family are Protobuf-serialisable values for it too.
@@ -485,6 +490,9 @@ func runCodec(e *vlib.Env, res *vlib.Result, kind string, gen func(r *vlib.Rand)
 	}
 	var held []heldMsg
 	tb := newTargetBook() // Unmarshal targets that are not fresh zero values (targets.go)
+	h := newHostility(e, kind, mk)
+	nShared, nGogoOnly, nGogoOnlyAfterFailed := 0, 0, 0
+	hst := h
 	defer func() {
 		if res.Failed() {
 			return
@@ -497,7 +505,11 @@ func runCodec(e *vlib.Env, res *vlib.Result, kind string, gen func(r *vlib.Rand)
 			}
 			out := h.v.fresh()
 			if err := h.m.Unmarshal(h.msg, out); err != nil || !h.v.equal(h.v.v, out) {
-				res.Fail("cqrs-roundtrip", "%s marshaler: a message kept while other values were marshaled no longer decodes to its value %s (err %v)", kind, clip(h.v.desc, 200), err)
+				note := ""
+				if n := hst.failedByType[reflect.TypeOf(h.v.v)]; n > 0 {
+					note = fmt.Sprintf(" [it decoded to its value when it was marshaled; other operations aimed at %T that failed in this case: %d, so far in this process: %d]", h.v.v, n, procFailed(reflect.TypeOf(h.v.v)))
+				}
+				res.Fail("cqrs-roundtrip", "%s marshaler: a message kept while other values were marshaled no longer decodes to its value %s (err %v)%s", kind, clip(h.v.desc, 200), err, note)
 				return
 			}
 		}
@@ -566,89 +578,162 @@ func runCodec(e *vlib.Env, res *vlib.Result, kind string, gen func(r *vlib.Rand)
 			newUUID = func() string { return uuid }
 		}
 		m := mk(newUUID, genName, e.R.Bool())
+		if h.r.Intn(5) == 0 {
+			// the one marshaler value that is kept for the whole case (and has seen all other operations made through it)
+			m, ngID = h.shared, "default (the marshaler value kept for the whole case)"
+			nShared++
+		}
 		in := v.v
 		if byValue && e.R.Bool() {
 			in = reflect.ValueOf(v.v).Elem().Interface() // JSON accepts non-pointer values too
 		}
-		fail := func(clause, format string, args ...any) {
-			res.Fail(clause, "%s marshaler, name generator %s, value %s: %s", kind, ngID, clip(v.desc, 600), fmt.Sprintf(format, args...))
-			res.Witness = map[string]any{"marshaler": kind, "name_generator": ngID, "value": clip(v.desc, 4000)}
-		}
-		var msg *message.Message
-		var err error
-		var wantName, gotName string
-		if p := guard(func() {
-			msg, err = m.Marshal(in)
-			if err == nil && msg != nil {
-				wantName, gotName = m.Name(in), m.NameFromMessage(msg)
+		hv := &valueHistory{} // other operations made around this value's round trip (history.go)
+		vt := reflect.TypeOf(v.v)
+		// failAs: attribute=true for the checks the baseline round trip made too (Marshal, name, Unmarshal into a fresh target): when the
+		// baseline held, their failure is a dependence on the operations made in between
+		failAs := func(attribute bool, clause, format string, args ...any) {
+			text := fmt.Sprintf(format, args...)
+			if attribute {
+				clause, text = hv.attribute(clause, text)
 			}
-		}); p != "" {
-			fail("panic", "Marshal/Name panicked: %s", p)
+			if n := procFailed(vt); n > 0 && !hv.baselineOK {
+				text += fmt.Sprintf(" [other operations aimed at %v that failed so far in this process: %d, of them in this case: %d]", vt, n, h.failedByType[vt])
+			}
+			res.Fail(clause, "%s marshaler, name generator %s, value %s: %s", kind, ngID, clip(v.desc, 600), text)
+			res.Witness = map[string]any{"marshaler": kind, "name_generator": ngID, "value": clip(v.desc, 4000), "other_operations_around_this_value": hv.log}
+		}
+		fail := func(clause, format string, args ...any) { failAs(true, clause, format, args...) }
+		failTarget := func(clause, format string, args ...any) { failAs(false, clause, format, args...) }
+		gotName := ""
+		// marshalStep: Marshal + name law. ok=false: failed (reported); skip: the known lossy encoding of a std value (not judged).
+		marshalStep := func(count bool) (msg *message.Message, ok, skip bool) {
+			var err error
+			var wantName string
+			if p := guard(func() {
+				msg, err = m.Marshal(in)
+				if err == nil && msg != nil {
+					wantName, gotName = m.Name(in), m.NameFromMessage(msg)
+				}
+			}); p != "" {
+				fail("panic", "Marshal/Name panicked: %s", p)
+				return nil, false, false
+			}
+			res.Events++
+			if err != nil || msg == nil {
+				fail("cqrs-marshal-error", "Marshal returned (%v, %v) for a serialisable value", msg, err)
+				return nil, false, false
+			}
+			res.Events++
+			if gotName != wantName {
+				fail("cqrs-name", "NameFromMessage = %s, Name(value) = %s (metadata %s)", showStr(gotName), showStr(wantName), showMeta(msg.Metadata))
+				return nil, false, false
+			}
+			if v.std {
+				// KNOWN DEFECT of the unchanged tree (reported, not judged; see gogoschema.go): the deprecated marshaler encodes a
+				// google.golang.org/protobuf message with gogo's struct-tag reflection, which knows neither the unknown-field store nor the
+				// extension store of such a message nor proto3 `optional` (a present but empty bytes field is skipped) - unless gogo fails
+				// (oneof in use) and Marshal falls back to ProtoMarshaler. When the payload is exactly the encoding of v without these parts,
+				// the value is counted and skipped.
+				carries := v.pst.unknownNodes > 0 || v.pst.extensions > 0
+				if carries && count {
+					nStdUnk++
+				}
+				if stdMarshalLossy(v.v.(proto.Message), msg.Payload) {
+					if count {
+						nStdLossy++
+					}
+					return msg, true, true
+				}
+				if carries && count {
+					nStdUnkKept++
+				}
+			}
+			held = append(held, heldMsg{m: m, msg: msg, snap: append([]byte(nil), msg.Payload...), v: v})
+			return msg, true, false
+		}
+		// unmarshalStep: Unmarshal into a fresh zero value + identity
+		unmarshalStep := func(msg *message.Message, rr *vlib.Rand) bool {
+			wire := msg
+			if rr.Bool() {
+				wire = msg.Copy() // what a subscriber gets from a Pub/Sub
+				viaCopy++
+			}
+			out := v.fresh()
+			var err error
+			if p := guard(func() { err = m.Unmarshal(wire, out) }); p != "" {
+				fail("panic", "Unmarshal panicked: %s (payload %s)", p, showBytes(msg.Payload))
+				return false
+			}
+			res.Events++
+			if err != nil {
+				fail("cqrs-unmarshal-error", "Unmarshal(Marshal(v)) failed: %v (payload %s)", err, showBytes(msg.Payload))
+				return false
+			}
+			res.Events++
+			if !v.equal(v.v, out) {
+				diff := ""
+				if byValue {
+					diff = firstDiff(reflect.ValueOf(v.v), reflect.ValueOf(out), "v") + "; "
+				}
+				if v.diff != nil {
+					diff = v.diff(v.v, out) + "; "
+				}
+				got := ""
+				if !v.large {
+					got = clip(fmt.Sprintf("%+v", reflect.ValueOf(out).Elem().Interface()), 600)
+				}
+				fail("cqrs-roundtrip", "%sUnmarshal(Marshal(v)) = %s differs from v (payload %s)", diff, got, showBytes(msg.Payload))
+				return false
+			}
+			return true
+		}
+		// ROUND TRIPS ARE INDEPENDENT OF WHAT THE MARSHALER SAW BEFORE (history.go): a baseline round trip, then operations that are
+		// expected to fail (bad payloads, refused targets, refused values; through this and other marshaler values), then the checked program
+		pre, mid := h.plan(v)
+		if pre || mid {
+			h.values++
+			bmsg, ok, skip := marshalStep(false)
+			if !ok {
+				break
+			}
+			if !skip {
+				if !unmarshalStep(bmsg, h.r) {
+					break
+				}
+				hv.baselineOK = true
+				h.baselines++
+			}
+			if pre {
+				h.ops(m, v, bmsg, hv)
+			}
+		}
+		if h.failedByType[vt] > 0 {
+			h.afterFailedOnType++
+			if v.gogoOnly {
+				nGogoOnlyAfterFailed++
+			}
+		}
+		if v.gogoOnly {
+			nGogoOnly++
+		}
+		msg, ok, skip := marshalStep(true)
+		if !ok {
 			break
 		}
-		res.Events++
-		if err != nil || msg == nil {
-			fail("cqrs-marshal-error", "Marshal returned (%v, %v) for a serialisable value", msg, err)
+		if skip {
+			continue
+		}
+		if mid {
+			h.mids++
+			h.ops(m, v, msg, hv)
+		}
+		if !unmarshalStep(msg, e.R) {
 			break
 		}
-		res.Events++
-		if gotName != wantName {
-			fail("cqrs-name", "NameFromMessage = %s, Name(value) = %s (metadata %s)", showStr(gotName), showStr(wantName), showMeta(msg.Metadata))
-			break
-		}
-		if v.std {
-			// KNOWN DEFECT of the unchanged tree (reported, not judged; see gogoschema.go): the deprecated marshaler encodes a
-			// google.golang.org/protobuf message with gogo's struct-tag reflection, which knows neither the unknown-field store nor the
-			// extension store of such a message nor proto3 `optional` (a present but empty bytes field is skipped) - unless gogo fails
-			// (oneof in use) and Marshal falls back to ProtoMarshaler. When the payload is exactly the encoding of v without these parts,
-			// the value is counted and skipped.
-			carries := v.pst.unknownNodes > 0 || v.pst.extensions > 0
-			if carries {
-				nStdUnk++
-			}
-			if stdMarshalLossy(v.v.(proto.Message), msg.Payload) {
-				nStdLossy++
-				continue
-			}
-			if carries {
-				nStdUnkKept++
-			}
-		}
-		held = append(held, heldMsg{m: m, msg: msg, snap: append([]byte(nil), msg.Payload...), v: v})
-		wire := msg
-		if e.R.Bool() {
-			wire = msg.Copy() // what a subscriber gets from a Pub/Sub
-			viaCopy++
-		}
-		out := v.fresh()
-		if p := guard(func() { err = m.Unmarshal(wire, out) }); p != "" {
-			fail("panic", "Unmarshal panicked: %s (payload %s)", p, showBytes(msg.Payload))
-			break
-		}
-		res.Events++
-		if err != nil {
-			fail("cqrs-unmarshal-error", "Unmarshal(Marshal(v)) failed: %v (payload %s)", err, showBytes(msg.Payload))
-			break
-		}
-		res.Events++
-		if !v.equal(v.v, out) {
-			diff := ""
-			if byValue {
-				diff = firstDiff(reflect.ValueOf(v.v), reflect.ValueOf(out), "v") + "; "
-			}
-			if v.diff != nil {
-				diff = v.diff(v.v, out) + "; "
-			}
-			got := ""
-			if !v.large {
-				got = clip(fmt.Sprintf("%+v", reflect.ValueOf(out).Elem().Interface()), 600)
-			}
-			fail("cqrs-roundtrip", "%sUnmarshal(Marshal(v)) = %s differs from v (payload %s)", diff, got, showBytes(msg.Payload))
-			break
-		}
+		h.remember(v, msg)
 		// the same message into targets that already carry data: reused between calls, pre-populated
 		// (large values - 100 KiB and more - only make the plain round trip and the held-message round trip)
-		if !v.large && !tb.run(e.R, res, m, msg, v, fail) {
+		if !v.large && !tb.run(e.R, res, m, msg, v, failTarget) {
 			break
 		}
 		if len(samples) < 3 && !v.zero {
@@ -661,6 +746,8 @@ func runCodec(e *vlib.Env, res *vlib.Result, kind string, gen func(r *vlib.Rand)
 	res.Count("corpus_sweep_strings", sw.used)
 	res.Count("size_ladder_values", len(ladder))
 	tb.report(res)
+	h.report(res)
+	res.Count("round_trips_through_marshaler_value_kept_for_the_case", nShared)
 	if byValue { // the JSON family
 		res.Count("values_with_numbers_in_untyped_slots", nUntypedNum)
 		res.Count("untyped_slot_numbers", ut.numbers)
@@ -672,7 +759,7 @@ func runCodec(e *vlib.Env, res *vlib.Result, kind string, gen func(r *vlib.Rand)
 		res.Count("values_with_untyped_depth_ge_2", ut.depth)
 	}
 	f.report(res)
-	res.NonTrivial = res.Failed() || (nonZero > 0 && f.multibyte && f.control)
+	res.NonTrivial = res.Failed() || (nonZero > 0 && f.multibyte && f.control && h.afterFailedOnType > 0)
 	if schema {
 		reportProtoStats(res, pst)
 		res.Count("values_with_unknown_fields_at_top_level", nUnkTop)
@@ -686,9 +773,11 @@ func runCodec(e *vlib.Env, res *vlib.Result, kind string, gen func(r *vlib.Rand)
 		res.NonTrivial = res.Failed() || (res.NonTrivial && nUnkTop > 0 && nUnkNested > 0 && pst.oneofArm > 0 && pst.oneofUnset > 0 && pst.presentZero > 0)
 	}
 	if strings.Contains(kind, "gogo") {
+		res.Count("gogo_only_type_values", nGogoOnly)
+		res.Count("gogo_only_type_values_checked_after_failed_op_on_their_go_type", nGogoOnlyAfterFailed)
 		res.Count("gogo_std_values_unknown_extension_or_empty_optional_bytes_fields_lost_in_gogo_marshal_KNOWN_DEFECT_not_judged", nStdLossy)
 	}
-	res.Sig = vlib.Sig(kind, sigParts)
+	res.Sig = vlib.Sig(kind, sigParts, h.trace)
 	if !res.Failed() {
 		res.Sample = map[string]any{"marshaler": kind, "values": nVals, "examples": samples}
 	}
@@ -777,7 +866,7 @@ func protoStrValK(r *vlib.Rand, s string, k int) val {
 }
 
 func gogoStrVal(r *vlib.Rand, s string) val {
-	k := r.Intn(4)
+	k := r.Intn(5)
 	v := gogoStrValK(r, s, k)
 	if v.again == nil {
 		v.again = func(r *vlib.Rand) val { return gogoStrValK(r, genStr(r), k) }
@@ -793,6 +882,8 @@ func gogoStrValK(r *vlib.Rand, s string, k int) val {
 		return gogoVal(gogoStruct(map[string]any{s: s, "l": []any{s}}), s)
 	case 2:
 		return gogoVal(&gogotypes.FieldMask{Paths: []string{s, s}}, s)
+	case 3:
+		return gogoOnlyStrVal(r, s)
 	default:
 		v := protoStrVal(r, s)
 		v.desc = "std:" + v.desc
@@ -825,7 +916,10 @@ func protoSized(r *vlib.Rand, n int) val {
 }
 
 func gogoSized(r *vlib.Rand, n int) val {
-	if r.Bool() {
+	switch r.Intn(3) {
+	case 0:
+		return gogoOnlySized(r, n)
+	case 1:
 		v := gogoVal(&gogotypes.BytesValue{Value: r.Bytes(n)})
 		v.desc = fmt.Sprintf("*types.BytesValue{%d bytes}", n)
 		v.again = func(r *vlib.Rand) val { return gogoSized(r, r.Intn(3000)) }
